@@ -25,7 +25,7 @@ ASSUMPTIONS = [
     "lean/Ufw/Model/Regp.lean is a hand transcription of regp_recv with run_continuable_sink / cs_add and of regp_process, tied to the code by the correspondence run",
 ]
 TRUSTED = ["correspondence harness harness/h_regp.c (exact-size blocks, ledger, room reported to the backend) + tools/lib/vf.py", "clang-14 AddressSanitizer / UBSan"]
-DESIGN_REF = "DESIGN.md section 8, C09"
+DESIGN_REF = "DESIGN.md section 0.2 (as built) and section 8, C09"
 TECHNIQUE = ("Lean 4 proofs: ledger invariant (every block obtained by regp_recv is either returned in the maybe-frame or released before a channel error is returned; "
              "regp_free releases it exactly once), stored octets never exceed B - F, the backend buffer handed out has room for the block it must hold, overflow / "
              "busy / short-frame replies as stated + differential correspondence with ASan on exact-size blocks, boundary lengths and failure scripts")
